@@ -35,6 +35,9 @@ def run(ctx, proof):
     plan = [(2, 3, "all"), (3, 6, "all"), (4, 4, 10), (5, 3, 5), (6, 2, 2)] if ctx.quick else \
            [(2, 10, "all"), (3, 30, "all"), (4, 2, "all"), (4, 30, 30), (5, 20, 20), (6, 8, 8)]
     cases = campaign.make_cases(ctx, ["superadditive_cached"], "sa", plan)
+    # "every incomplete game on which both are defined": the known values need not come from a superadditive game
+    plan_arb = [(3, 4, "all"), (4, 6, 10), (5, 6, 6)] if ctx.quick else [(3, 20, "all"), (4, 30, 30), (5, 30, 20), (6, 8, 8)]
+    cases += campaign.make_cases(ctx, ["superadditive_cached"], "arbitrary", plan_arb)
     # impl vs impl oracle on every case (this IS the property), then impl vs model for both computers
     def oracle(c, tab_cached):
         st, tab_ref = bl.impl_compute("superadditive", c["n"], c["v"], c["K"], c["stale"])
@@ -65,6 +68,26 @@ def run(ctx, proof):
                                   {"n": n, "v": [str(x) for x in v], "K": K, "cached": str(t1)[:2000], "reference": str(t2)[:2000]})
                 elif any((not k) and lo != hi for k, lo, hi in t1):
                     ctx.nontrivial.add(("big", n, tuple(K), tuple(map(float, v))))
+
+    # impl/impl on arbitrary (not superadditive) tables, n = 5..7: a split of a coalition into two UNKNOWN parts can be the
+    # only good one when the known coalitions have low values, which needs |coalition| >= 4 and so n >= 5
+    arb = [(5, 60), (6, 80), (7, 8)] if ctx.quick else [(5, 600), (6, 500), (7, 60), (8, 10)]
+    for (n, cnt) in arb:
+        for _ in range(cnt):
+            small = rng.random() < 0.5
+            v = [0] + [(rng.randint(0, 2) if small else rng.randint(-20, 20)) for _ in range(2 ** n - 1)]
+            K = games.random_knowledge(rng, n)
+            ctx.evaluations += 1
+            ctx.count("arbitrary_tables_n", n)
+            s1, t1 = bl.impl_compute("superadditive_cached", n, v, K)
+            s2, t2 = bl.impl_compute("superadditive", n, v, K)
+            if s1 != s2 or t1 != t2:
+                d = [(i, t1[i], t2[i]) for i in range(2 ** n) if t1[i] != t2[i]][:3] if s1 == s2 == "ok" else (s1, s2)
+                ctx.violation(f"cached and reference computers disagree on a table that is not superadditive (bitwise, integers): {d}",
+                              {"n": n, "v": [str(x) for x in v], "K": K, "differences(id, cached, reference)": str(d)})
+                break
+            elif any((not k) and lo != hi for k, lo, hi in t1):
+                ctx.nontrivial.add(("arb", n, tuple(K), tuple(map(float, v))))
 
     # interleavings of player counts + repeated invocation; memo arrays must never change
     hashes = {}
